@@ -6,9 +6,10 @@
 #include "confcommon.h"
 #include <ctype.h>
 
-static const char *FRAG[] = { "a", " ", "~", "\\n", "\\\\", "\\'", "\\", "'", "\"", "$V", "${V}", "$(V)", "$E", "$U", "${U}", "${V", "$", "$VV",
+static char g_edir[300], g_odir[300], g_frag_e[330], g_frag_o[330];     /* an empty directory and one holding the single regular file "f" */
+static const char *FRAG[40] = { "a", " ", "~", "\\n", "\\\\", "\\'", "\\", "'", "\"", "$V", "${V}", "$(V)", "$E", "$U", "${U}", "${V", "$", "$VV",
                               "%appname()", "%version()", "%random(w)", "%get(k)", "%get(k d)", "%get(", ")", "%", "(", "x" };
-#define NFRAG ((int) (sizeof FRAG / sizeof FRAG[0]))
+static int NFRAG = 28;
 static const char *HOMES[3] = { "/h", "", NULL };
 static int g_n;
 
@@ -53,7 +54,11 @@ static int ref_builtin(int k, const char *arg, ref_t *r)
     case 4: { char w[3][64]; int n = ref_words(a->out, w);
               if (n >= 1 && n <= 2) { const char *v = m_store_get(w[0]); if (v) r_put(r, v, strlen(v)); else if (n == 2) r_put(r, w[1], strlen(w[1])); }
               break; }                     /* more than two words: syntax error, nothing is substituted */
-    default: r->foreign_percent = 1; break;       /* exec/put/dirscan are not in the stateless alphabet */
+    case 6: { char w[3][64 + 300]; (void) w;      /* dirscan: names of the regular files, each followed by a blank; "" for an empty directory */
+              const char *d = a->out; while (*d == ' ') d++;
+              if (!strcmp(d, g_odir)) r_put(r, "f ", 2); else if (strcmp(d, g_edir)) r->foreign_percent = 1;
+              break; }
+    default: r->foreign_percent = 1; break;       /* exec/put are not in the stateless alphabet */
     }
     free(a);
     return 1;
@@ -114,7 +119,7 @@ static void build_input(uint64_t idx, char *buf, size_t n, int *home)
 }
 static void a_desc(uint64_t idx, void *ctx, char *b, size_t n)
 {
-    char in[200], e[400]; int h; (void) ctx; build_input(idx, in, sizeof in, &h); mc_esc(in, strlen(in), e, sizeof e);
+    char in[1400], e[2000]; int h; (void) ctx; build_input(idx, in, sizeof in, &h); mc_esc(in, strlen(in), e, sizeof e);
     snprintf(b, n, "spifconf_shell_expand(\"%s\") with HOME=%s, V=val, VV=\"x y\", E=\"\", U unset", e, HOMES[h] ? (HOMES[h][0] ? HOMES[h] : "\"\"") : "unset");
 }
 static const char *shape_of(const char *in)
@@ -144,7 +149,7 @@ static __attribute__((noinline)) char *expand_in(const char *in, size_t blk, int
 }
 static void a_case(uint64_t idx, void *ctx)
 {
-    char in[200]; int h; (void) ctx; build_input(idx, in, sizeof in, &h);
+    char in[1400]; int h; (void) ctx; build_input(idx, in, sizeof in, &h);
     g_home = HOMES[h];
     const char *shape = shape_of(in);
     mc_set_shape(shape);
@@ -155,9 +160,9 @@ static void a_case(uint64_t idx, void *ctx)
     size_t blk = (ok && R.n <= inlen) ? inlen + 1 : CONFIG_BUFF;
     char *k1, *k2; g_spawns = 0; g_errors = 0;
     char *r1 = expand_in(in, blk, 0xA5, &k1);
-    char res1[512]; int null1 = (r1 == NULL); if (r1) snprintf(res1, sizeof res1, "%s", r1);
+    char res1[2048]; int null1 = (r1 == NULL); if (r1) snprintf(res1, sizeof res1, "%s", r1);
     char *r2 = expand_in(in, blk, 0x5A, &k2);
-    char e1[600], e2[600];
+    char e1[2600], e2[2600];
     if (null1 != (r2 == NULL) || (r1 && r2 && strcmp(res1, r2))) { mc_esc(res1, strlen(res1), e1, sizeof e1); mc_esc(r2 ? r2 : "", r2 ? strlen(r2) : 0, e2, sizeof e2);
         FAIL("spifconf_shell_expand", "nondeterministic", shape, "result \"%s\" with memory filled with 0xA5, \"%s\" with 0x5A", null1 ? "(NULL)" : e1, r2 ? e2 : "(NULL)"); }
     else if (!ok) { if (r1) { /* refusal is the reference answer for mismatched parentheses; the text must then be untouched */ FAIL("spifconf_shell_expand", "model:not-refused", shape, "mismatched parentheses but a result was returned"); } }
@@ -173,11 +178,18 @@ static void a_case(uint64_t idx, void *ctx)
 }
 
 /* ------------------------------------------------------------------ (B) %put / %get histories (E1) */
-static const char *VOPS[] = { "%put(k v1)", "%put(k v2)", "%put(j v1)", "x%get(k)y", "%get(j)", "%get(k dflt)", "%put(k)", "%get(%get(j))", "%put(a %get(k))" };
+static const char *VOPS[] = { "%put(k v1)", "%put(k v2)", "%put(j v1)", "x%get(k)y", "%get(j)", "%get(k dflt)", "%put(k)", "%get(%get(j))", "%put(a %get(k))", "%put(j '')", "p%get(j)q" };
 #define NVOPS ((int) (sizeof VOPS / sizeof VOPS[0]))
-typedef struct { char k[8], j[8], a[8], v1val[8]; int init; } vs_t;
+typedef struct { char k[8], j[8], a[8]; int hk, hj, ha; int init; } vs_t;      /* h*: the variable exists (its value may be empty) */
 static vs_t *g_vs;
-static const char *m_store_get(const char *key) { if (!g_vs) return NULL; const char *v = !strcmp(key, "k") ? g_vs->k : (!strcmp(key, "j") ? g_vs->j : (!strcmp(key, "a") ? g_vs->a : (!strcmp(key, "v1") ? g_vs->v1val : ""))); return *v ? v : NULL; }
+static const char *m_store_get(const char *key)
+{
+    if (!g_vs) return NULL;
+    if (!strcmp(key, "k")) return g_vs->hk ? g_vs->k : NULL;
+    if (!strcmp(key, "j")) return g_vs->hj ? g_vs->j : NULL;
+    if (!strcmp(key, "a")) return g_vs->ha ? g_vs->a : NULL;
+    return NULL;
+}
 static void v_name(int i, char *b, size_t n) { snprintf(b, n, "expand \"%s\"", VOPS[i]); }
 static void *v_fresh(void) { names_once(); spifconf_init_subsystem(); vs_t *s = calloc(1, sizeof *s); s->init = 1; return s; }
 static int v_enabled(void *s, int op) { (void) s; (void) op; return 1; }
@@ -191,7 +203,7 @@ static void v_check_store(vs_t *s, const char *shape)
         g_vs = s; const char *e = m_store_get((char *) v->var); g_vs = NULL;
         if (!e || strcmp(e, (char *) v->value)) { FAIL("spifconf_put_var", "model:store-content", shape, "store has %s=%s, model %s", (char *) v->var, (char *) v->value, e ? e : "(absent)"); return; }
     }
-    int want = (s->k[0] != 0) + (s->j[0] != 0) + (s->a[0] != 0);
+    int want = s->hk + s->hj + s->ha;
     if (cnt != want) FAIL("spifconf_put_var", "model:store-size", shape, "store holds %d variables, model %d", cnt, want);
 }
 static void v_apply(void *vs, int op)
@@ -204,8 +216,9 @@ static void v_apply(void *vs, int op)
     /* the reference: %put updates the dictionary and yields nothing; %get reads it */
     if (!strncmp(VOPS[op], "%put(", 5)) {
         char key[8] = "", val[60] = ""; ok = 1; expect[0] = 0;
-        if (op == 8) { const char *kv = m_store_get("k"); if (kv) { snprintf(s->a, sizeof s->a, "%s", kv); } /* %put(a <value of k>): malformed (one word) when k is unset */ }
-        else if (sscanf(VOPS[op] + 5, "%7[^ )] %50[^)]", key, val) == 2) { char *dst = !strcmp(key, "k") ? s->k : s->j; snprintf(dst, 8, "%s", val); }
+        if (op == 8) { const char *kv = m_store_get("k"); if (kv && *kv) { snprintf(s->a, sizeof s->a, "%s", kv); s->ha = 1; } /* %put(a <value of k>): malformed (one word) when k is unset or empty */ }
+        else if (op == 9) { s->j[0] = 0; s->hj = 1; }                          /* %put(j ''): the variable exists with an empty value */
+        else if (sscanf(VOPS[op] + 5, "%7[^ )] %50[^)]", key, val) == 2) { if (!strcmp(key, "k")) { snprintf(s->k, 8, "%s", val); s->hk = 1; } else { snprintf(s->j, 8, "%s", val); s->hj = 1; } }
     } else { ok = ref_expand(VOPS[op], &R); R.out[R.n] = 0; snprintf(expect, sizeof expect, "%s", R.out); }
     char *k1; char *r = expand_in(VOPS[op], CONFIG_BUFF, 0xA5, &k1);
     g_vs = NULL;
@@ -214,7 +227,7 @@ static void v_apply(void *vs, int op)
     free(k1);
     v_check_store(s, shape);
 }
-static void v_canon(void *vs, char *b, size_t n) { vs_t *s = vs; snprintf(b, n, "k=%s j=%s a=%s", s->k, s->j, s->a); }
+static void v_canon(void *vs, char *b, size_t n) { vs_t *s = vs; snprintf(b, n, "k=%s%s j=%s%s a=%s%s", s->hk ? "" : "<unset>", s->k, s->hj ? "" : "<unset>", s->j, s->ha ? "" : "<unset>", s->a); }
 static void v_teardown(void *vs) { spifconf_free_subsystem(); free(vs); }
 
 /* ------------------------------------------------------------------ (C) the length limit */
@@ -247,6 +260,10 @@ int main(int argc, char **argv)
     mc_init("C10", argc, argv);
     int N = (int) mc_arg_int("N", mc_thorough() ? 4 : 3);
     names_once();
+    snprintf(g_edir, sizeof g_edir, "%s/ed", scratch()); snprintf(g_odir, sizeof g_odir, "%s/od", scratch());
+    mkdir(g_edir, 0700); mkdir(g_odir, 0700); { char f[330]; snprintf(f, sizeof f, "%s/f", g_odir); write_file(f, "x", 1); }
+    snprintf(g_frag_e, sizeof g_frag_e, "%%dirscan(%s)", g_edir); snprintf(g_frag_o, sizeof g_frag_o, "%%dirscan(%s)", g_odir);
+    FRAG[NFRAG++] = g_frag_e; FRAG[NFRAG++] = g_frag_o;
     mc_info("alphabet", "(A) concatenations of <= %d of %d fragments {a, space, ~, \\n, \\\\, \\', lone \\, ', \", $V, ${V}, $(V), $E, $U, ${U}, unterminated ${V, lone $, $VV, %%appname(), %%version(), %%random(w), %%get(k), %%get(k d), %%get(, ), lone %%, (, x} "
             "x HOME in {/h, empty, unset}; each expanded twice under memory fills 0xA5/0x5A; (B) %%put/%%get histories over %d operations to a fixpoint; (C) %d fragments x 14 distances from the 20479-character limit x {with, without trailing text}",
             N, NFRAG, NVOPS, NLFRAG);
